@@ -387,14 +387,6 @@ theorem matchPart_chain (g : Graph) (q : Ch.Query) (hnd : (q.nodeNames ++ q.relN
       simp only [Quirks.none, List.map_nil, List.reverse_nil] at h2
       simp only [if_true, h2, ebind_ok, epure_ok, cyChain_states]
 
-theorem clause_chain (g : Graph) (q : Ch.Query) (hnd : (q.nodeNames ++ q.relNames).Nodup) (hn : ∀ n ∈ g.nodes, g.node? n.id = some n) :
-    evalClauses .none g true [[]] q.toCy.clauses = .ok ((chainECs g q).map (·.1)) := by
-  unfold Ch.Query.toCy
-  have hmp := matchPart_chain g q hnd hn
-  have hsteps : q.hops.map (fun h => ((.mk (some h.r) h.rkinds .out none [], .mk (some h.n) h.nkinds []) : RelPat × NodePat)) = q.hops.map stepOf := rfl
-  simp only [evalClauses, evalClause, mapE_singleton, matchParts, ite_self, hsteps, hmp, ebind_ok, epure_ok, List.flatten_cons, List.flatten_nil,
-    List.append_nil, filterE_true, Bool.false_and, Bool.and_false, Bool.false_eq_true, if_false, List.map_map, Function.comp_def]
-
 /-- the Cypher value of a RETURN item on a chain match -/
 def itemCCh (c : Chain) : Ch.Item → CVal
   | .ent x _ => match refGet c x with | some (.n y) => .node y.id | some (.e x) => .rel x.id | none => .null
@@ -509,14 +501,138 @@ theorem chainECs_inv (g : Graph) (q : Ch.Query) (hnd : (q.nodeNames ++ q.relName
   · rw [h3]; simp [Nat.add_comm]
   · rw [h4]; simp
 
+-- ------------------------------------------------------------------ WHERE over the chain
+
+def RefE.ent : RefE → Ent
+  | .n y => nodeEnt y
+  | .e x => edgeEnt x
+
+/-- the entity a WHERE conjunct over `x` reads on a chain match -/
+def entOfCh (c : Chain) (x : Ch.Ref) : Ent := ((refGet c x).map RefE.ent).getD (nodeEnt default)
+
+/-- every WHERE conjunct holds on the chain match -/
+def okWhereCh (q : Ch.Query) (c : Chain) : Bool := q.wh.all (fun cj => semE (entOfCh c cj.1) cj.2 == some true)
+
+/-- the matches that pass WHERE, in Cypher's enumeration order, with their binding environments -/
+def whereECs (g : Graph) (q : Ch.Query) : List (Env × Chain) := (chainECs g q).filter (fun ec => okWhereCh q ec.2)
+
+theorem whereECs_mem (g : Graph) (q : Ch.Query) (ec : Env × Chain) (h : ec ∈ whereECs g q) : ec ∈ chainECs g q := (List.mem_filter.mp h).1
+
+/-- a pattern variable of a complete match is bound, names an existing pattern position, and shows its entity to the Cypher evaluator -/
+theorem ref_ok (q : Ch.Query) (c : Chain) (hl1 : c.ns.length = q.hops.length + 1) (hl2 : c.es.length = q.hops.length) (x : Ch.Ref)
+    (hx : q.refs.contains x = true) :
+    (∃ r, refGet c x = some r) ∧ (∀ i, x = .node i → (q.nodeNames[i]?).isSome) ∧ (∀ i, x = .rel i → (q.relNames[i]?).isSome) := by
+  obtain ⟨hr1, hr2⟩ := refs_mem q x hx
+  have hnl : q.nodeNames.length = q.hops.length + 1 := by simp [Ch.Query.nodeNames]
+  have hrl : q.relNames.length = q.hops.length := by simp [Ch.Query.relNames]
+  refine ⟨?_, ?_, ?_⟩
+  · cases x with
+    | node i =>
+      have : i < c.ns.length := by rw [hl1]; exact hr1 i rfl
+      exact ⟨.n (c.ns[i]), by simp [refGet, List.getElem?_eq_getElem this]⟩
+    | rel i =>
+      have : i < c.es.length := by rw [hl2]; exact hr2 i rfl
+      exact ⟨.e (c.es[i]), by simp [refGet, List.getElem?_eq_getElem this]⟩
+  · intro i hx'
+    have : i < q.nodeNames.length := by rw [hnl]; exact hr1 i hx'
+    simp [List.getElem?_eq_getElem this]
+  · intro i hx'
+    have : i < q.relNames.length := by rw [hrl]; exact hr2 i hx'
+    simp [List.getElem?_eq_getElem this]
+
+theorem ref_cyEnt (g : Graph) (q : Ch.Query) (env : Env) (c : Chain) (hok : EnvOK q.nodeNames q.relNames c env) (hin : InGraph g c)
+    (x : Ch.Ref) (r : RefE) (hr : refGet c x = some r)
+    (hname : ∀ i, x = .node i → (q.nodeNames[i]?).isSome) (hname' : ∀ i, x = .rel i → (q.relNames[i]?).isSome) :
+    ∃ cv, env.lookup (q.name x) = some cv ∧ CyEnt g cv r.ent := by
+  cases x with
+  | node i =>
+    simp only [refGet, Option.map_eq_some_iff] at hr
+    obtain ⟨y, hy, rfl⟩ := hr
+    obtain ⟨v, hv⟩ := Option.isSome_iff_exists.mp (hname i rfl)
+    refine ⟨.node y.id, ?_, cyEnt_node g y (hin.node y (List.mem_of_getElem? hy))⟩
+    simp only [Ch.Query.name, hv, Option.getD_some]
+    exact hok.node i v y hv hy
+  | rel i =>
+    simp only [refGet, Option.map_eq_some_iff] at hr
+    obtain ⟨e, he, rfl⟩ := hr
+    obtain ⟨v, hv⟩ := Option.isSome_iff_exists.mp (hname' i rfl)
+    refine ⟨.rel e.id, ?_, cyEnt_edge g e (hin.rel e (List.mem_of_getElem? he))⟩
+    simp only [Ch.Query.name, hv, Option.getD_some]
+    exact hok.rel i v e hv he
+
+theorem conjunct_chain (g : Graph) (q : Ch.Query) (env : Env) (c : Chain) (hok : EnvOK q.nodeNames q.relNames c env) (hin : InGraph g c)
+    (hl1 : c.ns.length = q.hops.length + 1) (hl2 : c.es.length = q.hops.length) (cj : Ch.Ref × S1.Pred) (hx : q.refs.contains cj.1 = true) (fl : Bool) :
+    Cy.evalExpr .none g env fl (S1.Pred.toCy (q.name cj.1) cj.2) = .ok (triToC (semE (entOfCh c cj.1) cj.2)) := by
+  obtain ⟨⟨r, hr⟩, hn1, hn2⟩ := ref_ok q c hl1 hl2 cj.1 hx
+  obtain ⟨cv, hl, hce⟩ := ref_cyEnt g q env c hok hin cj.1 r hr hn1 hn2
+  have : entOfCh c cj.1 = r.ent := by simp [entOfCh, hr]
+  rw [this]
+  exact (cy_predAt g _ _ _ _ hce hl cj.2).1 fl
+
+theorem evalConj_chain (g : Graph) (q : Ch.Query) (env : Env) (c : Chain) (hok : EnvOK q.nodeNames q.relNames c env) (hin : InGraph g c)
+    (hl1 : c.ns.length = q.hops.length + 1) (hl2 : c.es.length = q.hops.length) : ∀ (cs : List (Ch.Ref × S1.Pred)),
+    (∀ cj ∈ cs, q.refs.contains cj.1 = true) →
+    Cy.evalConj .none g env (cs.map (fun cj => S1.Pred.toCy (q.name cj.1) cj.2)) =
+      .ok ((cs.map (fun cj => semE (entOfCh c cj.1) cj.2)).foldr triAnd (some true))
+  | [], _ => by rw [List.map_nil, Cy.evalConj]; rfl
+  | cj :: cs, h => by
+    rw [List.map_cons, Cy.evalConj, conjunct_chain g q env c hok hin hl1 hl2 cj (h cj (List.mem_cons_self ..)) false,
+      evalConj_chain g q env c hok hin hl1 hl2 cs (fun x hx => h x (List.mem_cons_of_mem _ hx))]
+    simp only [ebind_ok, triOfC_triToC, epure_ok, List.map_cons, List.foldr_cons]
+
+/-- the WHERE test of the MATCH clause on a complete chain match -/
+theorem where_chain (g : Graph) (q : Ch.Query) (env : Env) (c : Chain) (hok : EnvOK q.nodeNames q.relNames c env) (hin : InGraph g c)
+    (hl1 : c.ns.length = q.hops.length + 1) (hl2 : c.es.length = q.hops.length) (hwh : ∀ cj ∈ q.wh, q.refs.contains cj.1 = true) :
+    (q.whereCy = none → okWhereCh q c = true) ∧
+    (∀ w, q.whereCy = some w → (do let v ← Cy.evalExpr .none g env false w; truthy v) = .ok (okWhereCh q c)) := by
+  unfold Ch.Query.whereCy okWhereCh
+  cases hw : q.wh with
+  | nil => exact ⟨fun _ => rfl, fun w h => by cases h⟩
+  | cons cj cs =>
+    rw [hw] at hwh
+    cases cs with
+    | nil =>
+      refine ⟨fun h => (by cases h), fun w h => ?_⟩
+      simp only [Option.some.injEq] at h
+      subst h
+      simp only [conjunct_chain g q env c hok hin hl1 hl2 cj (hwh cj (List.mem_cons_self ..)) false, ebind_ok, truthy_tri, List.all_cons, List.all_nil,
+        Bool.and_true]
+    | cons cj' cs' =>
+      refine ⟨fun h => (by cases h), fun w h => ?_⟩
+      simp only [Option.some.injEq] at h
+      subst h
+      rw [Cy.evalExpr, evalConj_chain g q env c hok hin hl1 hl2 (cj :: cj' :: cs') hwh]
+      simp only [ebind_ok, epure_ok, truthy_tri, foldr_triAnd_true, List.all_map]
+      rfl
+
+theorem clause_chain (g : Graph) (q : Ch.Query) (hnd : (q.nodeNames ++ q.relNames).Nodup) (hn : ∀ n ∈ g.nodes, g.node? n.id = some n)
+    (hedge : ∀ e ∈ g.edges, g.edge? e.id = some e) (hwh : ∀ cj ∈ q.wh, q.refs.contains cj.1 = true) :
+    evalClauses .none g true [[]] q.toCy.clauses = .ok ((whereECs g q).map (·.1)) := by
+  unfold Ch.Query.toCy
+  have hmp := matchPart_chain g q hnd hn
+  have hsteps : q.hops.map (fun h => ((.mk (some h.r) h.rkinds .out none [], .mk (some h.n) h.nkinds []) : RelPat × NodePat)) = q.hops.map stepOf := rfl
+  simp only [evalClauses, evalClause, mapE_singleton, matchParts, ite_self, hsteps, hmp, ebind_ok, epure_ok, List.flatten_cons, List.flatten_nil,
+    List.append_nil]
+  rw [filterE_map_ok (fun (ec : Env × Chain) => (⟨ec.1, (ec.2.es.map (·.id)).reverse⟩ : MState)) _ (fun ec => okWhereCh q ec.2) (chainECs g q)]
+  · simp only [ebind_ok, Bool.false_and, Bool.and_false, Bool.false_eq_true, if_false, List.map_map, Function.comp_def,
+      List.flatten_cons, List.flatten_nil, List.append_nil]
+    rfl
+  · intro ec hec
+    obtain ⟨hok, hin, hl1, hl2⟩ := chainECs_inv g q hnd hn hedge ec hec
+    obtain ⟨w1, w2⟩ := where_chain g q ec.1 ec.2 hok hin hl1 hl2 hwh
+    cases hw : q.whereCy with
+    | none => simp only [w1 hw]
+    | some w => exact w2 w hw
+
 /-- CYPHER SIDE of S2c: the reference semantics returns one row per chain match, in the order a-nodes / outgoing relationships, step by step -/
 theorem cy_side_chain (g : Graph) (q : Ch.Query) (hwf : q.wf = true) (hn : ∀ n ∈ g.nodes, g.node? n.id = some n)
     (hedge : ∀ e ∈ g.edges, g.edge? e.id = some e) :
-    Cy.eval .none g q.toCy = .ok (Cy.projNames (q.items.map (Ch.Item.toCy q)), (chainECs g q).map (fun ec => q.items.map (itemCCh ec.2))) := by
+    Cy.eval .none g q.toCy = .ok (Cy.projNames (q.items.map (Ch.Item.toCy q)), (whereECs g q).map (fun ec => q.items.map (itemCCh ec.2))) := by
   unfold Ch.Query.wf at hwf
   simp only [Bool.and_eq_true, decide_eq_true_eq, List.all_eq_true] at hwf
-  obtain ⟨⟨⟨_, hnd⟩, hitems⟩, _⟩ := hwf
-  have hc := clause_chain g q hnd hn
+  obtain ⟨⟨⟨⟨_, hnd⟩, hitems⟩, _⟩, hwh⟩ := hwf
+  have hwh' : ∀ cj ∈ q.wh, q.refs.contains cj.1 = true := fun cj hcj => (hwh cj hcj).1
+  have hc := clause_chain g q hnd hn hedge hwh'
   unfold Cy.eval
   have hparts : q.toCy.parts = [] := rfl
   simp only [hparts, evalParts, ebind_ok, List.isEmpty_nil, hc]
@@ -528,13 +644,13 @@ theorem cy_side_chain (g : Graph) (q : Ch.Query) (hwf : q.wf = true) (hn : ∀ n
   have hskip : q.toCy.ret.skip = none := rfl
   have hlim : q.toCy.ret.limit = none := rfl
   simp only [hall, hdist, hitems', hob, hskip, hlim, Bool.false_eq_true, if_false, anyAgg_itemsCh, Bool.or_self]
-  have hpr : plainRows .none g (Cy.projNames (q.items.map (Ch.Item.toCy q))) (q.items.map (Ch.Item.toCy q)) ((chainECs g q).map (·.1)) =
-      .ok ((chainECs g q).map (fun ec => (q.items.map (itemCCh ec.2),
+  have hpr : plainRows .none g (Cy.projNames (q.items.map (Ch.Item.toCy q))) (q.items.map (Ch.Item.toCy q)) ((whereECs g q).map (·.1)) =
+      .ok ((whereECs g q).map (fun ec => (q.items.map (itemCCh ec.2),
         (Cy.projNames (q.items.map (Ch.Item.toCy q))).zip (q.items.map (itemCCh ec.2)) ++ ec.1))) := by
     unfold plainRows
     apply mapE_map_ok
     intro ec hec
-    obtain ⟨hok, hin, hl1, hl2⟩ := chainECs_inv g q hnd hn hedge ec hec
+    obtain ⟨hok, hin, hl1, hl2⟩ := chainECs_inv g q hnd hn hedge ec (whereECs_mem g q ec hec)
     have : (q.items.map (Ch.Item.toCy q)).mapE (fun it => Cy.evalExpr .none g ec.1 false it.e) = .ok (q.items.map (itemCCh ec.2)) := by
       apply mapE_map_ok
       intro it hit
